@@ -167,6 +167,10 @@ def run(ck, facts):
             ck.expect(bool(m), "R2", "LookupId.%s/keyed-by-node" % fl["name"], m.group(1) if m else "", "LookupId.%s is keyed by `%s`, not by the AST node: same-named types in different modules are conflated, so adding an unrelated type can change other types' files" % (fl["name"], short_ty(fl["ty"])), C.loc(li))
 
     positional_id_rules(ck, "R2", facts)
+    # the language override table is a HashMap applied in iteration order: harmless only while every setting has ONE key under which it can be stored (rules of C17: the
+    # shared keys a prefix may override are exactly the keys SharedConfig::set understands, spelled one way)
+    import c17
+    c17.run(C.SubCheck(ck, "R1", "", ["R2", "R3"], key_re=r"SharedConfig/"), facts)
 
     # ---------------- R3 non-bridge code inert
     ms = core.fn("ast::modules::Module::from_syn")
